@@ -592,6 +592,16 @@ watchdog_start(void)
 void
 vf_watchdog(int seconds)
 {
+	// VF_SLOW=<factor>: the process runs under an emulator (valgrind); every
+	// watchdog period is stretched by that factor
+	static int slow;
+	if (slow == 0) {
+		const char *e = getenv("VF_SLOW");
+		slow          = (e != NULL && atoi(e) > 0) ? atoi(e) : 1;
+	}
+	if (seconds > 0 && slow > 1) {
+		seconds *= slow;
+	}
 	wd_seconds = seconds;
 	if (seconds <= 0) {
 		atomic_store(&wd_deadline, 0);
